@@ -999,4 +999,5 @@ Proof.
   - split; [eauto|]. intros [s1 [E H]]. inversion E; subst; auto.
   - destruct (step fx p s l) as [s1|]; [apply IH|]. split; [discriminate|]. intros [s1 [E _]]. discriminate.
 Qed.
-(*STOP*)
+
+End Prog.
